@@ -110,6 +110,8 @@ class SimPipeFile:
         self._eof = False
         self._waiters = []
         self.output = []  # list of strings actually written, in effect order
+        self.flushed = []  # what has left the stream buffer: written data reaches the reader only when flushed
+        self._unflushed = []
         self.fail_with = None  # exception instance to raise from write/flush
         self.stalled = False
         self.closed = False
@@ -152,6 +154,7 @@ class SimPipeFile:
             self.writes_after_fail += 1
             raise self.fail_with
         self.output.append(data)
+        self._unflushed.append(data)
         return len(data)
 
     def flush(self):
@@ -160,7 +163,14 @@ class SimPipeFile:
         if self.fail_with is not None:
             raise self.fail_with
         self.flushes += 1
+        self.flushed += self._unflushed
+        self._unflushed = []
 
     @property
     def text(self):
         return "".join(self.output)
+
+    @property
+    def flushed_text(self):
+        """What the process reading the other end of the pipe has got: the flushed part of what was written."""
+        return "".join(self.flushed)
